@@ -670,7 +670,7 @@ class C13(e2.ProgenProp):
         return {"status": "ran", "hdr": hdr, "N": N, "schedules": schedules, "recs": [x for x in recs if "k" in x], "crash": r.get("crash"), "excluded": excluded}
 
     def _judge_unit(self, u, out):
-        """list of (schedule or None, failure text); also sets out['n_ok']"""
+        """list of (schedule or None, failure text); sets out['judged'] (indices of the schedules that were compared)"""
         res = []
         if out["status"] == "timeout":
             return [(None, "HARNESS-ERROR program timed out")]
@@ -709,7 +709,7 @@ class C13(e2.ProgenProp):
         case = u["case"]
         ops = [s["f"] for s in case["stages"]]
         depth = len(ops)
-        rich = depth >= 2 or any(o in BROADCASTING or o in REDUCING for o in ops)
+        rich = depth >= 2 or _broadcast_or_reduce(case)
         fs = self._judge_unit(u, out)
         key = "program:" + out["status"]
         stats.classes[key] = stats.classes.get(key, 0) + 1
@@ -764,6 +764,19 @@ class C13(e2.ProgenProp):
         sch = [case["schedule"]] if case.get("schedule") else None
         out = self._run_unit(u, 100, 0, schedules=sch, filter_known=False)
         return [(dict(case, schedule=s) if s else case, f, {}) for s, f in self._judge_unit(u, out) if not f.startswith("HARNESS-ERROR")][:1]
+
+
+def _broadcast_or_reduce(case):
+    """a reducing stage, an explicit broadcast, or a multi-operand stage whose leaf operands have different shapes"""
+    na = len(case["arrays"])
+    for s in case["stages"]:
+        if s["f"] in REDUCING or s["f"] == "broadcast_to":
+            return True
+        if s["f"] in BROADCASTING:
+            shapes = [tuple(case["arrays"][i]["shape"]) for i in s["in"] if i < na]
+            if len(set(shapes)) > 1 or len(shapes) < len(s["in"]):
+                return True
+    return False
 
 
 def hdrt(hdr):
